@@ -175,7 +175,7 @@ def cases(tier, seed):
     # API level: the same kind of fault scripts with handshake, refresh and heartbeat
     # traffic present (the API's own subscribers send messages from inside the socket's
     # notifications)
-    m = 500 if tier == "quick" else 25000
+    m = 500 if tier == "quick" else 80000
     for gen in (4, 5):
         for atom in API_ATOMS:
             for gap in ([], [["adv", EPS]], [["adv", 2.0]], [["q"]]):
@@ -188,7 +188,7 @@ def cases(tier, seed):
                 [[], [["adv", EPS]], [["adv", 0.5]], [["adv", 2.0]], [["adv", 2.0 + EPS]],
                  [["q"]], [["adv", 301.0]]])
         yield {"k": "api", "gen": rnd.choice((4, 5)), "ops": ops, "seed": rnd.randrange(1 << 30)}
-    n = 3000 if tier == "quick" else 120000
+    n = 3000 if tier == "quick" else 400000
     for i in range(n):
         depth = rnd.choice([2, 2, 3, 3, 4, 5])
         els = [(rnd.choice(A), rnd.choice(SENDS), rnd.choice(GAPS)) for _ in range(depth)]
